@@ -18,8 +18,8 @@ from auditok.io import from_file, to_file  # noqa: E402
 ID = "C18"
 LEVEL = "exploration"
 RULE = (
-    "Cases = audio of 0..200 samples with distinct content x width 1/2/4 x 1-5 channels x rate x format (wav/raw "
-    "chosen by extension, or explicit audio_format incl. 'wave' and upper case) x writer (to_file, region.save with "
+    "Cases = audio of 0..200 samples (one case in forty: 65537..70000 samples, so that skip can lie beyond 2**16 samples) with distinct content x width 1/2/4 x 1-5 channels x rate x format (wav/raw "
+    "chosen by extension, or explicit audio_format incl. 'wave', upper and mixed case such as 'WAVE'/'Wave') x writer (to_file, region.save with "
     "str or Path name) x reader (load, AudioRegion.load, from_file eager, from_file lazy, load with large_file) x "
     "file-name template with {start}/{end}/{duration} and format specs x exists_ok on existing/fresh names x "
     "skip/max_read as k/rate, between samples, 0, beyond the end. Oracle: bytes identical after the trip; wav header "
@@ -30,7 +30,7 @@ RULE = (
     "Non-trivial = (width != 2 or >= 2 channels) and >= 1 sample."
 )
 MUST_HIT = ["skip_between_samples", "empty_slice", "lazy_reader", "wav_sw1", "wav_sw4", "placeholder_name",
-            "exists_refused", "numpy_multichannel", "to_file_byteslike"]
+            "exists_refused", "numpy_multichannel", "to_file_byteslike", "skip_beyond_65536_samples", "explicit_format"]
 ASSUMPTIONS = ["files are re-read with stdlib wave/open to judge the writer independently of the reader"]
 BOUNDS = {"quick": dict(n=500, maxN=200), "thorough": dict(n=6000, maxN=1500)}
 _ctr = [0]
@@ -47,11 +47,12 @@ def check_case(case, rec):
     fmt = case["fmt"]
     how = case["fmt_how"]
     ext = {"ext": "." + fmt, "ext_upper": "." + fmt.upper(), "explicit": ".bin", "explicit_wave": ".xyz",
-           "explicit_upper": "", "noext": ""}[how]
+           "explicit_upper": "", "explicit_mixed": ".dat", "noext": ""}[how]
     if how == "noext" and fmt != "raw":
         raise HarnessError("noext means raw")
+    mixed = case.get("mixed", "WAVE") if fmt == "wav" else "Raw"
     audio_format = {"ext": None, "ext_upper": None, "explicit": fmt, "explicit_wave": "wave" if fmt == "wav" else "raw",
-                    "explicit_upper": fmt.upper(), "noext": None}[how]
+                    "explicit_upper": fmt.upper(), "explicit_mixed": mixed, "noext": None}[how]
     writer = case["writer"]
     start = case.get("start")
     # a filled-in template contains dots; without an extension or explicit
@@ -114,7 +115,8 @@ def check_case(case, rec):
         # ---- read back through auditok
         reader = case["reader"]
         rkw = {}
-        if how in ("explicit", "explicit_wave", "explicit_upper"):
+        if how in ("explicit", "explicit_wave", "explicit_upper", "explicit_mixed"):
+            classes.add("explicit_format")
             rkw["audio_format"] = audio_format
         elif how == "noext":
             rkw["audio_format"] = "raw"
@@ -187,6 +189,8 @@ def check_case(case, rec):
                 raise Violation(f"numpy()[{c}] differs from the signed little-endian samples of channel {c}", case)
         if ch > 1 and N:
             classes.add("numpy_multichannel")
+        if N > 65536 and skip is not None and a > 65536:
+            classes.add("skip_beyond_65536_samples")
         rec.note(case, N > 0 and (sw != 2 or ch > 1), classes, out={"file": os.path.basename(path), "read": len(got) // bps})
     finally:
         for fn_ in os.listdir(d):
@@ -212,6 +216,10 @@ def explicit_cases():
         dict(base, N=0, reader="load", skip=None, mr=None),
         dict(base, fmt_how="explicit_wave", writer="to_file", reader="from_file_lazy", data_kind="memoryview"),
         dict(base, fmt="raw", fmt_how="noext", writer="save_str", reader="from_file_eager", tmpl=None, sw=2, ch=5),
+        dict(base, fmt_how="explicit_mixed", mixed="WAVE", writer="to_file", reader="load", skip=None, mr=None),
+        dict(base, fmt_how="explicit_mixed", mixed="Wave", reader="from_file_lazy", tmpl=None),
+        dict(base, N=66000, sw=2, ch=2, sr=16000, skip=[65600, 0], mr=[100, 0], tmpl=None),
+        dict(base, N=66000, sw=2, ch=1, sr=8000, fmt="raw", reader="load_lazy", skip=[65999, 0.25], mr=None, tmpl=None),
     ]
 
 
@@ -225,8 +233,13 @@ def strategy(draw, maxN):
     sw = draw(st.sampled_from([1, 2, 4]))
     ch = draw(st.integers(1, 5))
     N = draw(st.one_of(st.integers(0, 3), st.integers(0, maxN)))
+    big = draw(st.integers(0, 39)) == 0
+    if big:
+        # more than 2**16 samples: skip / max_read far into the file
+        N = draw(st.integers(65537, 70000))
+        ch = min(ch, 2)
     fmt = draw(st.sampled_from(["wav", "raw"]))
-    hows = ["ext", "ext_upper", "explicit", "explicit_wave", "explicit_upper"] + (["noext"] if fmt == "raw" else [])
+    hows = ["ext", "ext_upper", "explicit", "explicit_wave", "explicit_upper", "explicit_mixed"] + (["noext"] if fmt == "raw" else [])
     case = dict(sr=sr, sw=sw, ch=ch, N=N, salt=draw(st.integers(0, 10**6)), fmt=fmt,
                 fmt_how=draw(st.sampled_from(hows)),
                 writer=draw(st.sampled_from(["to_file", "save_str", "save_path"])),
@@ -237,7 +250,9 @@ def strategy(draw, maxN):
                 exists_ok=draw(st.booleans()),
                 path_obj=draw(st.booleans()),
                 data_kind=draw(st.sampled_from(["bytes", "bytes", "bytearray", "memoryview"])),
-                skip=draw(st.one_of(st.none(), st.tuples(st.integers(0, N + 4), st.sampled_from([0, 0.25, 0.75])).map(list))),
+                mixed=draw(st.sampled_from(["WAVE", "Wave", "Wav", "wAVE"])),
+                skip=draw(st.one_of(st.none(), st.tuples(st.integers(0, N + 4), st.sampled_from([0, 0.25, 0.75])).map(list),
+                                 st.tuples(st.integers(max(N - 4000, 0), N + 4), st.sampled_from([0, 0.25])).map(list))),
                 mr=draw(st.one_of(st.none(), st.tuples(st.integers(0, N + 4), st.sampled_from([0, 0.25, 0.75])).map(list))))
     return case
 
